@@ -17,6 +17,8 @@ Two certificates:
   the effect of an operator `v` is the number whose bit `j` is the symplectic product of `v`
   with row `j` of `logX ++ logZ ++ stabs`; it is additive in `v`, so the effect of a
   weight-`w` operator is the xor of `≤ 2w` entries of the per-qubit table `effTableAt`.
+* `exhaustiveCSS`: no data; for codes whose generators are all pure X-type or pure Z-type the
+  enumeration is restricted to pure X-type and pure Z-type operators.
 
 Kernel evaluation (`decide +kernel`) is call-by-name without sharing: an argument that is not a
 literal is re-evaluated at every use.  `forceNat` / `forceList` / `forcePairs` (identity
@@ -136,17 +138,50 @@ def checkExhaustive (c : MaskCode) : Bool :=
   forceList (effRows c) fun rows =>
   forcePairs (effTableAt rows n n) fun tbl => exhB T w tbl 0
 
+/-! ### exhaustive enumeration for CSS codes: pure X-type and pure Z-type operators only -/
+
+/-- every row is a pure X-type or a pure Z-type operator -/
+def isCSSMask (n : Nat) (rows : List Nat) : Bool :=
+  rows.all fun g => g % 2 ^ n == 0 || g >>> n == 0
+
+/-- for every remaining qubit: act on it and continue with `f` on the later qubits -/
+def exhTails1 (f : List Nat → Nat → Bool) : List Nat → Nat → Bool
+  | [], _ => true
+  | x :: rest, acc => forceNat (acc ^^^ x) fun a => f rest a && exhTails1 f rest acc
+
+/-- every operator of one type and weight `≤ b` on the qubits of `tbl`, composed with the
+    operator of effect `acc`, has a harmless effect -/
+def exhB1 (T : Nat) : Nat → List Nat → Nat → Bool
+  | 0, _, acc => goodEff T acc
+  | b + 1, tbl, acc => goodEff T acc && exhTails1 (exhB1 T b) tbl acc
+
+/-- For a CSS code (all generators pure X or pure Z): every pure X-type and every pure Z-type
+    operator of weight `< c.d` is detected or commutes with all listed logicals.  Sufficient
+    because the X part and the Z part of a logical operator of a CSS code are logical operators
+    (`checkExhaustiveCSS_sound`). -/
+def checkExhaustiveCSS (c : MaskCode) : Bool :=
+  isCSSMask c.n c.stabs &&
+  forceNat (2 ^ (c.logX.length + c.logZ.length)) fun T =>
+  forceNat (c.d - 1) fun w =>
+  forceNat c.n fun n =>
+  forceList (effRows c) fun rows =>
+  forcePairs (effTableAt rows n n) fun tbl =>
+    exhB1 T w (tbl.map (·.1)) 0 && exhB1 T w (tbl.map (·.2)) 0
+
 /-! ### combined -/
 
 inductive DistCert where
   /-- enumerate everything below `d` -/
   | exhaustive
+  /-- CSS codes: enumerate the pure X-type and the pure Z-type operators below `d` -/
+  | exhaustiveCSS
   /-- selection masks of `d` disjoint representatives for each listed logical, concatenated -/
   | packing (sels : List Nat)
   deriving Repr
 
 def checkDistance (c : MaskCode) : DistCert → Bool
   | .exhaustive => checkExhaustive c
+  | .exhaustiveCSS => checkExhaustiveCSS c
   | .packing sels => checkPacking c sels
 
 /-- a table with optional certificates attached: the certified entries -/
